@@ -144,7 +144,7 @@ class C06(Prop):
         "written_file", "open_written", "open_rejects", "findName_stored", "findName_alias", "findName_absent", "findNumber_sorted",
         "fileInfo_spec", "internal_eq_external", "auto_switch_trigger", "external_is_permanent", "history_write", "history_index_correct", "history_alias", "history_enumeration", "findSubseq_spec", "findSubseq_erange", "exCross_wf",
         "findSubseq_alias", "findSubseq_absent", "open_any_bytes", "bsearch_any_array", "findName_any_index", "findName_no_fault",
-        "findNumber_any_index", "fileInfo_any_index", "findSubseq_any_index", "written_index_no_alias_chain", "truncated_index_never_wrong", "truncated_index_same_answers", "write_twice", "addFile_never_checks_names",
+        "findNumber_any_index", "fileInfo_any_index", "findSubseq_any_index", "written_index_no_alias_chain", "truncated_index_never_wrong", "truncated_index_same_answers", "write_twice", "findName_one_level", "findName_chain_depth", "findName_cycle_never_returns", "exLoop_next", "addFile_never_checks_names",
         "cross_class_duplicate_rejected")]
     claimed = True
     technique = ("Lean 4 proof about an executable model of esl_ssi.c (writer, on-disk layout, binary search, alias indirection) "
@@ -158,7 +158,7 @@ class C06(Prop):
                   "On ANY byte string (truncated, corrupted, unsorted index) Open/FindName/FindNumber/FindSubseq/FileInfo answer with a documented status and never read outside a buffer; an eslOK from FindName carries a stored record holding exactly the probe key; a written index cut after any number of bytes never answers with a wrong record. A second Write on the same ESL_NEWSSI is eslEINVAL and touches nothing. "
                   "The model is tied to the working tree on every run by an exact differential run (index bytes and every lookup, damaged indices included) against the ASan/UBSan build, plus an independent oracle on the library's outputs.")
     level_note = ("Alias lookup assumes AddAlias's documented precondition (the target is a registered primary key); on arbitrary bytes the alias recursion of FindName is shown to end when no stored alias names another stored alias "
-                  "(true of every written index, proved). Former known finding C06:cross-class-duplicate is repaired (cross_duplicate() in esl_newssi_Write); its witness is a regression case and `cross_class_duplicate_rejected` a theorem. "
+                  "(true of every written index, proved); on alias -> alias chains of hand-made files the recursion depth equals the chain length and the answer is the direct lookup of the last link, and on a cycle the recursion never returns (findName_chain_depth, findName_cycle_never_returns: stack overflow in C, not run against the code). Former known finding C06:cross-class-duplicate is repaired (cross_duplicate() in esl_newssi_Write); its witness is a regression case and `cross_class_duplicate_rejected` a theorem. "
                   "Trusted: Lean kernel + propext/Classical.choice/Quot.sound; the hand model's fidelity is checked by the differential run, not proved; qsort, sort(1) in the POSIX locale, system(), stdio are modelled (sort = bytewise sort of the lines); "
                   "little-endian host with 64-bit off_t; esl_ssi_FindSubseq's outcome theorem needs a registered file handle.")
     diverge_is_violation = True
